@@ -113,6 +113,26 @@ var scenarios = [][]string{
 		"c adv 1",
 		"c q wire u2 f t -",
 	},
+	{ // NSEC3 proofs: synthesis, the resolver-private route and an alias inherit the proof's lease; ECS cap under the config fallback
+		"c new 7 f 0 7200 0",
+		"c prec3 1 s300/300,g300/300/4000000,p300,g300/300/4000000 -",
+		"c q msg q1 f t -",
+		"c adv 50",
+		"c prec3 2 s30/30,g30/30/4000000,p300,g300/300/4000000 4",
+		"c q msg q1 f t -",
+		"c get q2",
+		"c q msg n0 f t n0=cq2:p600:-:-:-",
+		"c adv 3",
+		"c q msg n0 f t -",
+		"c adv 1",
+		"c q msg n0 f t -",
+		"c get q2",
+		"c q msg n1 t t n1=p:p300:-:-:s",
+		"c adv 6",
+		"c q msg n1 t t -",
+		"c adv 1",
+		"c q msg n1 t t -",
+	},
 	{ // an alias whose target lies below a subtree cut in its last seconds adopts the cut's NXDOMAIN
 		"c new 0 f",
 		"c cutrec 1 s300/300,g300/300/4000000,p300,g300/300/4000000 8",
@@ -443,6 +463,8 @@ type genHist struct {
 	proofs   []int
 	pf       int // prefetch threshold of the case (0 = off)
 	expire   int64
+	pzone    byte // the proof zone this case uses: 'p' (NSEC) or 'q' (NSEC3)
+	size     int
 }
 
 // pickD: an RRSIG window.  Outside aligned cases a signature must not be the
@@ -502,6 +524,11 @@ func (g *genHist) note(v int64) {
 
 func (g *genHist) genSpec(name string, kind byte, tgt int, ecs bool) string {
 	r := g.r
+	if kind == 'c' && tgt >= 100 && tgt < 200 && name[0] == 'm' {
+		// the proof zones deny type A only (their type bitmaps carry AAAA): an AAAA-side alias
+		// onto them would just miss; make it a plain NODATA instead
+		kind, tgt = 'd', 0
+	}
 	base := vlib.Pick(r, smallTTL)
 	if r.Chance(2, 3) {
 		base = vlib.Pick(r, []int64{5, 6, 7, 10, 12, 30, 60, 120, 300})
@@ -622,7 +649,7 @@ func (g *genHist) genSpec(name string, kind byte, tgt int, ecs bool) string {
 		if tgt >= 200 {
 			k = fmt.Sprintf("cu%d", tgt-200)
 		} else if tgt >= 100 {
-			k = fmt.Sprintf("cp%d", tgt-100)
+			k = fmt.Sprintf("c%c%d", g.pzone, tgt-100)
 		}
 	}
 	out := fmt.Sprintf("%s=%s:%s:%s:%s:%s", name, k, joinOrDash(ans), joinOrDash(ns), lease, sc)
@@ -664,17 +691,34 @@ func (g *genHist) route() string {
 	return vlib.Pick(g.r, []string{"msg", "dwire", "wire", "wire"})
 }
 
-func genHistCase(r *vlib.R, emit func(string)) int {
+func genHistCase(r *vlib.R, emitRaw func(string)) int {
+	// once a slow state-changing op may have stamped an entry late, nothing more of this case is emitted
+	emit := func(op string) {
+		if hist != nil && hist.taint && !strings.HasPrefix(op, "c new") {
+			return
+		}
+		emitRaw(op)
+	}
 	g := &genHist{r: r, aligned: r.Chance(1, 4), cap: vlib.Pick(r, []int64{0, 0, 3, 7, 60, 100000}),
 		interest: map[int64]bool{}, admitted: map[string]bool{}, captured: map[string]bool{}, tgtOf: map[string]string{}}
 	if !g.aligned && r.Chance(3, 10) {
 		g.pf = vlib.Pick(r, []int{25, 50, 75})
 	}
+	g.pzone = 'p'
+	if r.Chance(2, 5) {
+		g.pzone = 'q'
+	}
+	g.size = 1024
+	if r.Chance(1, 5) {
+		g.size = vlib.Pick(r, []int{0, 512}) // cache.New's "using defaults" fallback
+	}
 	g.expire = histExpire
 	if r.Chance(3, 20) {
 		g.expire = histExpireBig // `expire` above the 24 h cap
 	}
-	if g.expire != histExpire {
+	if g.size != 1024 {
+		emit(fmt.Sprintf("c new %d %s %d %d %d", g.cap, vlib.B(g.aligned), g.pf, g.expire, g.size))
+	} else if g.expire != histExpire {
 		emit(fmt.Sprintf("c new %d %s %d %d", g.cap, vlib.B(g.aligned), g.pf, g.expire))
 	} else if g.pf > 0 {
 		emit(fmt.Sprintf("c new %d %s %d", g.cap, vlib.B(g.aligned), g.pf))
@@ -749,7 +793,7 @@ func genHistCase(r *vlib.R, emit func(string)) int {
 		b := 1 + (a+r.Intn(2))%3
 		emit(g.genProof(a))
 		g.proofs = append(g.proofs, a)
-		emit(fmt.Sprintf("c q %s p%d f %s -", g.route(), a, vlib.B(r.Chance(2, 3))))
+		emit(fmt.Sprintf("c q %s %c%d f %s -", g.route(), g.pzone, a, vlib.B(r.Chance(2, 3))))
 		emit(fmt.Sprintf("c adv %d", g.pickAdvance()))
 		emit(g.genProof(b))
 		g.proofs = append(g.proofs, b)
@@ -758,7 +802,11 @@ func genHistCase(r *vlib.R, emit func(string)) int {
 			if hist != nil && hist.taint {
 				return count
 			}
-			emit(fmt.Sprintf("c q %s p%d f %s -", g.route(), vlib.Pick(r, []int{a, a, b}), vlib.B(r.Chance(2, 3))))
+			if r.Chance(1, 4) {
+				emit(fmt.Sprintf("c get %c%d", g.pzone, vlib.Pick(r, []int{a, a, b})))
+			} else {
+				emit(fmt.Sprintf("c q %s %c%d f %s -", g.route(), g.pzone, vlib.Pick(r, []int{a, a, b}), vlib.B(r.Chance(2, 3))))
+			}
 			emit(fmt.Sprintf("c adv %d", g.pickAdvance()))
 			count += 2
 		}
@@ -856,10 +904,10 @@ func genHistCase(r *vlib.R, emit func(string)) int {
 			}
 			if len(g.proofs) > 0 && r.Chance(1, 5) {
 				if r.Chance(1, 4) {
-					emit(fmt.Sprintf("c get p%d", vlib.Pick(r, g.proofs)))
+					emit(fmt.Sprintf("c get %c%d", g.pzone, vlib.Pick(r, g.proofs)))
 					continue
 				}
-				emit(fmt.Sprintf("c q %s p%d %s %s -", g.route(), vlib.Pick(r, g.proofs), vlib.B(r.Chance(1, 8)), vlib.B(r.Chance(2, 3))))
+				emit(fmt.Sprintf("c q %s %c%d %s %s -", g.route(), g.pzone, vlib.Pick(r, g.proofs), vlib.B(r.Chance(1, 8)), vlib.B(r.Chance(2, 3))))
 				continue
 			}
 			if r.Chance(1, 8) {
@@ -904,11 +952,11 @@ func genHistCase(r *vlib.R, emit func(string)) int {
 			px := 1 + r.Intn(3)
 			switch {
 			case len(g.proofs) > 0 && r.Chance(1, 2):
-				emit(fmt.Sprintf("c q %s p%d %s %s -", g.route(), vlib.Pick(r, g.proofs), vlib.B(r.Chance(1, 8)), vlib.B(r.Chance(2, 3))))
+				emit(fmt.Sprintf("c q %s %c%d %s %s -", g.route(), g.pzone, vlib.Pick(r, g.proofs), vlib.B(r.Chance(1, 8)), vlib.B(r.Chance(2, 3))))
 			default:
 				emit(g.genProof(px))
 				g.proofs = append(g.proofs, px)
-				emit(fmt.Sprintf("c q %s p%d f %s -", g.route(), vlib.Pick(r, g.proofs), vlib.B(r.Chance(2, 3))))
+				emit(fmt.Sprintf("c q %s %c%d f %s -", g.route(), g.pzone, vlib.Pick(r, g.proofs), vlib.B(r.Chance(2, 3))))
 				count++
 			}
 		default:
@@ -972,7 +1020,9 @@ func (g *genHist) genAAAASide(idx int, emit func(string)) {
 // genProof: an RFC 8198 NODATA proof for owner k of the proof zone.  The SOA
 // RRset and the NSEC RRset get their own lifetimes: later admissions for other
 // owners replace the zone's SOA entry, often with a shorter-lived one.
-func (g *genHist) genProof(k int) string {
+func (g *genHist) genProof(k int) string { return g.genProofZ(k, g.pzone) }
+
+func (g *genHist) genProofZ(k int, zone byte) string {
 	r := g.r
 	long := vlib.Pick(r, []int64{60, 120, 300, 3600, 10000})
 	short := vlib.Pick(r, []int64{1, 2, 3, 5, 6, 10, 30, 60})
@@ -1035,7 +1085,11 @@ func (g *genHist) genProof(k int) string {
 	for _, x := range []int64{soaT, soaM, g1T, g1O, nsecT, g2T, g2O, d1, d2} {
 		g.note(x)
 	}
-	return fmt.Sprintf("c prec %d %s,%s,%s,%s %s", k, item('s', soaT, soaM), item('g', g1T, g1O, d1), item('p', nsecT), item('g', g2T, g2O, d2), lease)
+	op := "prec"
+	if zone == 'q' {
+		op = "prec3"
+	}
+	return fmt.Sprintf("c %s %d %s,%s,%s,%s %s", op, k, item('s', soaT, soaM), item('g', g1T, g1O, d1), item('p', nsecT), item('g', g2T, g2O, d2), lease)
 }
 
 func (g *genHist) genCut(k int) string {
